@@ -357,8 +357,8 @@ func edJudge(p *Prog, call ssa.CallInstruction) edVerdict {
 	e := ErrOf(call)
 	if e == nil {
 		// the error result is never extracted
-		if cleanup && !writeSide && edOnFailureOrDeferredPath(call) {
-			return edVerdict{ok: true, how: "cleanup (Close/Remove) on a failure path or in deferred code; its error is not a failure of the operation"}
+		if cleanup && !writeSide && (edOnFailureOrDeferredPath(call) || edIsCleanupHelper(fn)) {
+			return edVerdict{ok: true, how: "cleanup (Close/Remove) on a failure path, in deferred code or in a cleanup helper; its error is not a failure of the operation"}
 		}
 		if cleanup && !writeSide && strings.HasSuffix(n, ".Close") {
 			return edVerdict{ok: true, how: "read-side Close; its error is not a failure of the operation"}
@@ -374,6 +374,11 @@ func edJudge(p *Prog, call ssa.CallInstruction) edVerdict {
 	aliases := Aliases(e)
 	// (4) handed to a sink that surfaces it
 	if how := edSink(p, fn, aliases); how != "" {
+		return edVerdict{ok: true, how: how}
+	}
+	// handed to an in-module helper that returns it (possibly wrapped) or drops
+	// it only after classifying it: ignoreAlreadyExists(err), existsUnlessNotFound(err), wrapX(err)
+	if how := edHandedToHelper(p, fn, aliases, 0); how != "" {
 		return edVerdict{ok: true, how: how}
 	}
 	// (3) on every feasible path from the failure to a success return the error
@@ -433,7 +438,7 @@ func edJudge(p *Prog, call ssa.CallInstruction) edVerdict {
 		}
 	}
 	if cleanup && !writeSide {
-		if edOnFailureOrDeferredPath(call) || strings.HasSuffix(n, ".Close") {
+		if edOnFailureOrDeferredPath(call) || strings.HasSuffix(n, ".Close") || edIsCleanupHelper(fn) {
 			return edVerdict{ok: true, how: "cleanup (Close/Remove); its error is not a failure of the operation"}
 		}
 	}
@@ -818,14 +823,16 @@ func edFailureReachesSuccess(fn *ssa.Function, call ssa.CallInstruction, e ssa.V
 		if failed && stop[in] {
 			return false
 		}
-		if failed && in == call.(ssa.Instruction) {
+		if failed && call != nil && in == call.(ssa.Instruction) {
 			return false // a new error value
 		}
-		if in == eInstr {
+		if in == eInstr || (eInstr == nil && !failed) {
 			env.nilOf[e] = 2
 			env.user.touched = true
 			env.user.last = nil
-			return true
+			if in == eInstr {
+				return true
+			}
 		}
 		if !failed {
 			return true
@@ -1025,4 +1032,73 @@ func edCapturedIsReturned(fn *ssa.Function, fv *ssa.FreeVar) bool {
 		}
 	}
 	return false
+}
+
+// edIsCleanupHelper: fn has no error result and its only error-returning
+// calls are of the Close / Remove family (discardIngest(path), closeQuietly(c)).
+func edIsCleanupHelper(fn *ssa.Function) bool {
+	if ErrResultIndex(fn.Signature) >= 0 || fn.Parent() != nil {
+		return false
+	}
+	n, ok := 0, true
+	AllInstrs(fn, func(in ssa.Instruction) {
+		c, isCall := in.(ssa.CallInstruction)
+		if !isCall || !hasErrResult(c) {
+			return
+		}
+		n++
+		if cl, ws := edCleanupClass(c); !cl || ws {
+			ok = false
+		}
+	})
+	return ok && n > 0
+}
+
+// edHandedToHelper: the error is passed to an in-module function in which —
+// with that parameter non-nil — every feasible path to a success return
+// classifies it (or the function returns it / a wrap of it, or sinks it).
+func edHandedToHelper(p *Prog, fn *ssa.Function, aliases map[ssa.Value]bool, depth int) string {
+	if depth > 2 {
+		return ""
+	}
+	dead := edDeadBlocks(fn)
+	how := ""
+	for _, m := range Calls(fn, func(string) bool { return true }) {
+		if how != "" {
+			break
+		}
+		if _, isDefer := m.(*ssa.Defer); isDefer || dead[m.(ssa.Instruction).Block()] {
+			continue
+		}
+		g, off := c02CalleeOf(m)
+		if g == nil || g == fn {
+			continue
+		}
+		for i, a := range m.Common().Args {
+			if !aliases[a] && !aliases[strip(a)] {
+				continue
+			}
+			prm := c02ArgParam(g, off, i)
+			if prm == nil || !isErrorType(prm.Type()) {
+				continue
+			}
+			pal := Aliases(prm)
+			if ErrResultIndex(g.Signature) >= 0 {
+				stop := edClassifiers(g, pal)
+				if bad, exceeded := edFailureReachesSuccess(g, nil, prm, pal, stop); !bad && !exceeded {
+					how = "handed to " + FnName(g) + ", which returns it (possibly wrapped) or drops it only after classifying it"
+					break
+				}
+			}
+			if sk := edSink(p, g, pal); sk != "" {
+				how = "handed to " + FnName(g) + ": " + sk
+				break
+			}
+			if h := edHandedToHelper(p, g, pal, depth+1); h != "" {
+				how = "handed to " + FnName(g) + ": " + h
+				break
+			}
+		}
+	}
+	return how
 }
